@@ -634,6 +634,46 @@ class Exec:
             self.stats['stores'] += 1
             self.store_val(ty, self.val(env, ty, ins.a), o, off)
             return None
+        if op == 'cmpxchg' or op == 'atomicrmw':
+            # one thread is executed: an atomic read-modify-write is its sequential meaning; the store is logged as atomic
+            p = self.val(env, ('ptr',), ins.a)
+            rt_ = self.ty.resolve(ty)
+            n = (rt_[1] + 7) // 8 if rt_[0] == 'int' else self.ty.sizeof(ty)
+            o, off = self.access(p, n, ins.align, True, ins)
+            if o.kind == 'global':
+                self.global_store_log.add((o.name, True, self.in_once > 0))
+            old = self.load_val(ty, o, off)
+            self.stats['loads'] += 1
+            self.stats['stores'] += 1
+            if op == 'cmpxchg':
+                cmp_ = self.val(env, ty, ins.b)
+                new_ = self.val(env, ty, ins.c)
+                ok = T.eq(old, cmp_)
+                self.store_val(ty, T.ite(ok, new_, old), o, off)
+                return [old, ok]
+            v = self.val(env, ty, ins.b)
+            k = ins.x
+            if k == 'xchg':
+                nv = v
+            elif k == 'add':
+                nv = T.add(old, v)
+            elif k == 'sub':
+                nv = T.sub(old, v)
+            elif k == 'and':
+                nv = T.band(old, v)
+            elif k == 'or':
+                nv = T.bor(old, v)
+            elif k == 'xor':
+                nv = T.bxor(old, v)
+            elif k == 'nand':
+                nv = T.bnot(T.band(old, v))
+            elif k in ('umax', 'umin', 'max', 'min'):
+                lt = T.ult(old, v) if k[0] == 'u' else T.slt(old, v)
+                nv = T.ite(lt, v, old) if k.endswith('max') else T.ite(lt, old, v)
+            else:
+                raise Unsupported('atomicrmw ' + str(k))
+            self.store_val(ty, nv, o, off)
+            return old
         if op == 'getelementptr':
             p = self.val(env, ('ptr',), ins.a)
             cur = ty
